@@ -34,15 +34,16 @@ THEOREMS = [
     "C05.wf_of_list_constructor", "C05.wf_of_map_constructor", "C05.list_derivations", "C05.list_items",
     "C05.map_derivations", "C05.map_items", "C05.map_string_keys", "C05.dict_key_order",
     "C05.dict_last_value", "C05.seq_items", "C05.empty_and_absent", "C05.final_delim", "C05.final_delim_map",
-    "C05.nesting", "C05.nesting_every_derivation", "C05.squash_around_items", "C05.no_exceptions",
-    "C05.squash_data",
+    "C05.nesting", "C05.nesting_every_derivation", "C05.end_to_end_json_partial", "C05.squash_around_items",
+    "C05.no_exceptions", "C05.any_token_except", "C05.squash_data",
 ]
 
 RULE = ("one case = one grammar (real LLParser rebuilt from a JSON spec) + 8-14 rendered values, or 20 template "
         "constructor calls, or one un-flattened sequence; distinct by protocol text; non-trivial = at least one text whose "
         "value holds a container with >= 2 entries or nesting depth >= 2 (template / sequence cases always)")
-TRUSTED = ["the tokenizer and the LL parse loop of ak/llparser.py produce the raw tree (C01's subject); it enters the "
-           "model as data", "the factorised prods_map / suffix symbols given to _make_squash_data enter as data"]
+TRUSTED = ["the tokenizer's regular expression (lexemes are data; renaming and skipping are modelled by the LL model)",
+           "for the cl/g lines only: the real raw tree and the real factorised prods_map enter as data (the tp/tc/G lines "
+           "compute both inside the model)"]
 ASSUMPTIONS = ["item symbol differs from the bracket and delimiter symbols of its ListProds (hypothesis WF of the "
                "theorems; ListProds('[','WORD','WORD',']') is outside the property: _find_index then picks the delimiter)",
                "raw trees returned by the parser conform to the generated productions and are well-typed (C01's claim; "
@@ -112,9 +113,9 @@ def _ll():
 
 TK = (r"(?P<SPACE>\s+)|(?P<COMMENT_EOL>//.*)|(?P<WORD>[a-zA-Z_][a-zA-Z0-9_]*)|(?P<NUMBER>[0-9]+)|(?P<COMMA>,)"
       r"|(?P<BR_OPEN>\[)|(?P<BR_CLOSE>\])|(?P<BR_OPEN_CURL>\{)|(?P<BR_CLOSE_CURL>\})|(?P<COLON>:)|(?P<SEMI>;)"
-      r"|(?P<LT><)|(?P<GT>>)|(?P<PO>\()|(?P<PC>\))|(?P<BAR>\|)|(?P<AT>@)|(?P<HASH>\#)")
+      r"|(?P<LT><)|(?P<GT>>)|(?P<PO>\()|(?P<PC>\))|(?P<BAR>\|)|(?P<AT>@)|(?P<HASH>\#)|(?P<EQ>=)")
 SYN = {'COMMA': ',', 'BR_OPEN': '[', 'BR_CLOSE': ']', 'BR_OPEN_CURL': '{', 'BR_CLOSE_CURL': '}', 'COLON': ':',
-       'SEMI': ';', 'LT': '<', 'GT': '>', 'PO': '(', 'PC': ')', 'BAR': '|', 'AT': '@', 'HASH': '#', 'COMMENT_EOL': 'COMMENT'}
+       'SEMI': ';', 'LT': '<', 'GT': '>', 'PO': '(', 'PC': ')', 'BAR': '|', 'AT': '@', 'HASH': '#', 'EQ': '=', 'COMMENT_EOL': 'COMMENT'}
 
 
 def _mk_template(kind, a):
@@ -127,8 +128,13 @@ def _mk_template(kind, a):
             kw["allow_final_delimiter"] = a[7]
         return ll.MapProds(a[0], a[1], a[2], a[3], a[4], a[5], optional=a[6], **kw)
     if kind == "seq":
-        return ll.ProdSequence(*a)
+        return ll.ProdSequence(*[ll.AnyTokenExcept(*x["x"]) if isinstance(x, dict) else x for x in a])
     raise ValueError(kind)
+
+
+def all_terminals():
+    """names of all tokens of the test tokenizer (after synonyms), sorted"""
+    return sorted(_ll()._Tokenizer(TK, synonyms=SYN).get_all_token_names())
 
 
 @functools.lru_cache(maxsize=256)
@@ -138,7 +144,8 @@ def _parser_cached(spec_json):
     prods = {}
     for sym, kind, data in spec["prods"]:
         if kind == "plain":
-            prods[sym] = [None if p is None else tuple(p) for p in data]
+            prods[sym] = [None if p is None else (ll.AnyTokenExcept(*p["x"]) if isinstance(p, dict) else tuple(p))
+                          for p in data]
         else:
             prods[sym] = _mk_template(kind, data)
     keep = set(spec["keep"]) if spec.get("keep") is not None else None
@@ -233,6 +240,31 @@ def read_val(toks, pos=0):
     raise ValueError("bad value token " + t)
 
 
+def sym_args_text(args):
+    return " ".join("X " + _names(a["x"]) if isinstance(a, dict) else enc_str(a) for a in args)
+
+
+def sp_line(res, terminals, args):
+    return ("sp %s T %s %s" % (enc_str(res), _names(terminals), sym_args_text(args))).rstrip()
+
+
+def pr_line(terminals, prods):
+    parts = []
+    for p in prods:
+        parts.append("N" if p is None else ("X " + _names(p["x"]) if isinstance(p, dict) else _names(p)))
+    return ("pr T %s %s" % (_names(terminals), " ".join(parts))).rstrip()
+
+
+def _read_names(toks, pos):
+    assert toks[pos] == "["
+    pos += 1
+    out = []
+    while toks[pos] != "]":
+        out.append(dec_str(toks[pos]))
+        pos += 1
+    return out, pos + 1
+
+
 def list_args_line(a, res):
     return "%s %s %s %s %s %s %s" % (_optname(a[0]), enc_str(a[1]), _optname(a[2]), _optname(a[3]),
                                      _optbool(a[4]), _optbool(a[5]), enc_str(res))
@@ -284,11 +316,18 @@ def _tpl_reply(op, args):
                 show_sigs(t.kv_tail_prods_signatures) + "KV " + enc_str(t.kv_prod_signature.name) + " " +
                 _names(t.kv_prod_signature.child_names))
     if op == "sp":
-        res, syms = args[0], args[1:]
+        res, terminals, syms = args
         t = ll.ProdSequence(*syms)
-        t.complete_init(res, set(), None)
+        # an ordered stand-in for the terminal set: same operations, iteration order = the order given to the model
+        t.complete_init(res, dict.fromkeys(terminals).keys(), ll.ParserSummary())
         prods = [(s, [list(r) for r in rr]) for s, rr in t.gen_productions()]
         return "ok P " + show_prods(prods)
+    if op == "pr":
+        terminals, prods = args
+        import itertools
+        rules = ll.LLParser._make_prod_rules_list("X", prods, dict.fromkeys(terminals).keys(), itertools.count(),
+                                                  ll.ParserSummary())
+        return "ok " + "".join(_names(r.production) + " " for r in rules)
     raise ValueError(op)
 
 
@@ -303,7 +342,8 @@ def _dec_optbool(s):
 def impl(case):
     out = []
     texts = [it["text"] for it in case.get("items", []) if it.get("cl")]
-    ti = 0
+    all_texts = [it["text"] for it in case.get("items", [])]
+    ti, tj = 0, -1
     spec = case.get("spec")
     for line in case["lines"]:
         toks = line.split()
@@ -312,6 +352,14 @@ def impl(case):
             if op == "g":
                 cl = parser_of(spec).cleanuper
                 out.append("ok squash %s choice %s" % (_names(sorted(cl.squash_symbols)), _names(sorted(cl.choice_symbols))))
+            elif op == "G":
+                cl = parser_of(spec).cleanuper
+                out.append("ok squash %s choice %s" % (_names(sorted(cl.squash_symbols)), _names(sorted(cl.choice_symbols))))
+            elif op == "tp":
+                tj += 1
+                out.append("ok " + show_val(parser_of(spec).parse(all_texts[tj], do_cleanup=False)))
+            elif op == "tc":
+                out.append("ok " + show_val(parser_of(spec).parse(all_texts[tj])))
             elif op == "cl":
                 text = texts[ti]
                 ti += 1
@@ -328,7 +376,33 @@ def impl(case):
                                              _dec_optname(a[4]), _dec_optname(a[5]), _dec_optbool(a[6]), _dec_optbool(a[7]),
                                              dec_str(a[8])]))
             elif op == "sp":
-                out.append(_tpl_reply("sp", [dec_str(x) for x in toks[1:]]))
+                ll = _ll()
+                res = dec_str(toks[1])
+                terminals, pos = _read_names(toks, 3)
+                syms = []
+                while pos < len(toks):
+                    if toks[pos] == "X":
+                        ex, pos = _read_names(toks, pos + 1)
+                        syms.append(ll.AnyTokenExcept(*ex))
+                    else:
+                        syms.append(dec_str(toks[pos]))
+                        pos += 1
+                out.append(_tpl_reply("sp", [res, terminals, syms]))
+            elif op == "pr":
+                ll = _ll()
+                terminals, pos = _read_names(toks, 2)
+                prods = []
+                while pos < len(toks):
+                    if toks[pos] == "N":
+                        prods.append(None)
+                        pos += 1
+                    elif toks[pos] == "X":
+                        ex, pos = _read_names(toks, pos + 1)
+                        prods.append(ll.AnyTokenExcept(*ex))
+                    else:
+                        p, pos = _read_names(toks, pos)
+                        prods.append(tuple(p))
+                out.append(_tpl_reply("pr", [terminals, prods]))
             elif op == "sq":
                 t, _ = read_val(toks, 1)
 
@@ -344,7 +418,8 @@ def impl(case):
 
 
 def observable(i, line):
-    return line.startswith("cl ")
+    # cl: model clean-up of the real raw tree; tc: tokens -> model parse -> model clean-up, incl. rejection of the text
+    return line.startswith("cl ") or line == "tc"
 
 
 # ------------------------------------------------------------------ oracle
@@ -427,7 +502,7 @@ def match(exp, act, parser, path="value"):
 
 
 def oracle(case, replies):
-    if "spec" not in case:
+    if "spec" not in case or case.get("meta", {}).get("grammar_rejected_as_documented"):
         return None
     ll = _ll()
     try:
@@ -682,7 +757,11 @@ def f2_gen(rng, cfg, d=0, maxd=4, in_seq=False):
     els = []
     for _ in range(rng.choice([0, 1, 2, 3, 5])):
         sym = rng.choice(cfg["seq_syms"])
-        if sym == "WORD":
+        if isinstance(sym, dict):
+            tok = rng.choice([t for t in all_terminals() if t not in sym["x"]])
+            text = {"WORD": rng.choice(WORDS), "NUMBER": str(rng.randrange(100))}.get(tok, tok)
+            els.append([tok, ["W", text]])
+        elif sym == "WORD":
             els.append([sym, ["W", rng.choice(WORDS)]])
         elif sym == "NUM":
             els.append([sym, ["W", str(rng.randrange(100))]])
@@ -895,6 +974,10 @@ def f2_items(rng, cfg, n_texts, maxd=4):
         tags = ["f2"]
         if _has_container_under_seq(node):
             tags.append("container-under-seq")
+        xs = [i for i, x in enumerate(cfg["seq_syms"]) if isinstance(x, dict)]
+        if xs and "B" in _kinds(node, set()):
+            tags.append("seq-any-token-except@%s" % ("first" if xs[0] == 0 else "last" if xs[0] == len(cfg["seq_syms"]) - 1
+                                                      else "middle"))
         ks = _kinds(node, set())
         tags += ["has-" + {"L": "list", "M": "map", "O": "object", "R": "record", "B": "sequence", "W": "word", "P": "pair-list"}[k]
                  for k in sorted(ks) if k in "LMORBWP"]
@@ -904,10 +987,20 @@ def f2_items(rng, cfg, n_texts, maxd=4):
     return items
 
 
+def any_except(matched, syms):
+    """AnyTokenExcept(...) that matches the tokens `matched` not already claimed by an explicit symbol of `syms`"""
+    m = [t for t in matched if t not in syms and not (t == "NUMBER" and "NUM" in syms)]
+    return {"x": [t for t in all_terminals() if t not in m]}
+
+
 def f2_configs(rng, n):
     for _ in range(n):
         seq_syms = rng.choice([["WORD", "NUM"], ["WORD", "NUM", "OBJECT"], ["WORD", "LIST", "MAP"],
                                ["NUM", "OBJECT", "LIST"], ["WORD", "NUM", "OBJECT", "LIST", "MAP"]])
+        if rng.random() < 0.45:
+            # the AnyTokenExcept pseudo-item at every position of the sequence
+            seq_syms = list(seq_syms)
+            seq_syms.insert(rng.randrange(0, len(seq_syms) + 1), any_except(["WORD", "NUMBER", ";", ":", "="], seq_syms))
         list_delim = rng.random() < 0.8
         cfg = {"list_afd": rng.choice([None, True, False]) if list_delim else rng.choice([None, False]),
                "map_afd": rng.choice([None, True, False]),
@@ -995,6 +1088,21 @@ def f3c_expected(node, afd):
 
 def f3_cases(rng, tier):
     quick = tier == "quick"
+    for order in (0, 1, 2):
+        for delim in (",", None):
+            for _ in range(4 if quick else 40):
+                smart, keep = rng.random() < 0.5, rng.choice([None, ["ITEM"], ["PAIR"]])
+                items = []
+                for _ in range(8):
+                    node = f3d_gen(rng)
+                    if delim and node[1] and rng.random() < 0.3:
+                        node[2] = True
+                    items.append({"text": ws(rng) + f3d_render(rng, node, delim) + ws(rng) + ";",
+                                  "exp": ["ok", {"te": "E", "ch": [f3d_expected(node), ";"]}], "size": _size(node),
+                                  "tags": ["f3-item-any-token-except@%d" % order]})
+                c = make_case(f3d_spec(order, delim, smart, keep), items, {"kind": "f3d", "order": order})
+                if c is not None:
+                    yield c
     for cfg in list_configs():
         if cfg[2]:
             continue                      # a token is never nullable
@@ -1046,14 +1154,184 @@ def f3_cases(rng, tier):
             yield c
 
 
+def f3d_spec(order, delim, smart, keep):
+    """list items: AnyTokenExcept at position `order` among the productions of the item symbol"""
+    prods = [["LIST"], ["PAIR"]]
+    prods.insert(order, {"x": [t for t in all_terminals() if t not in ("WORD", "NUMBER", ":", "=")]})
+    return {"prods": [["E", "plain", [["LIST", ";"]]],
+                      ["LIST", "list", ["[", "ITEM", delim, "]", None, None]],
+                      ["ITEM", "plain", prods],
+                      ["PAIR", "plain", [["@", "WORD", "WORD"]]]],
+            "keep": keep, "smart": smart, "start": "E"}
+
+
+def f3d_gen(rng, d=0):
+    items = []
+    for _ in range(rng.choice([0, 1, 2, 3, 5])):
+        r = rng.random()
+        if r < 0.55:
+            tok = rng.choice(["WORD", "NUMBER", ":", "="])
+            items.append(["W", {"WORD": rng.choice(WORDS), "NUMBER": str(rng.randrange(100))}.get(tok, tok)])
+        elif r < 0.8 and d < 3:
+            items.append(f3d_gen(rng, d + 1))
+        else:
+            items.append(["Q", rng.choice(WORDS), rng.choice(WORDS)])
+    return ["L", items, False]
+
+
+def f3d_render(rng, node, delim):
+    s = "[" + ws(rng)
+    for i, it in enumerate(node[1]):
+        if i:
+            s += ("," + ws(rng)) if delim else sep(rng)
+        s += (it[1] if it[0] == "W" else "@" + ws(rng) + it[1] + sep(rng) + it[2] if it[0] == "Q"
+              else f3d_render(rng, it, delim)) + ws(rng)
+    if node[2]:
+        s += "," + ws(rng)
+    return s + "]"
+
+
+def f3d_expected(node):
+    return [it[1] if it[0] == "W" else {"te": "PAIR", "ch": ["@", it[1], it[2]]} if it[0] == "Q" else f3d_expected(it)
+            for it in node[1]]
+
+
+ALIAS_MAPS = [("WORD", ":", "WORD"), ("WORD", "WORD", "WORD"), ("NUMBER", "=", "NUMBER"), ("KV", ":", "KV"),
+              ("WORD", "=", "KV"), ("KV", "WORD", "WORD"), ("WORD", ":", "NUMBER")]
+ALIAS_MAP_BR = [("{", "}"), ("|", "|"), (None, None), ("[", "]"), (":", ";")]
+ALIAS_LISTS = [("|", "|", ",", None), ("|", "|", None, None), (",", "]", ",", None), ("[", ";", ";", False),
+               ("[", "]", "[", None), ("WORD", "]", ",", None), ("[", "WORD", ",", False)]
+
+
+def f4_map_spec(kav, br, delim, afd, smart):
+    return {"prods": [["E", "plain", [["M", "#"]]],
+                      ["M", "map", [br[0], kav[0], kav[1], kav[2], delim, br[1], None, afd]],
+                      ["KV", "plain", [["WORD"], ["NUMBER"]]]],
+            "keep": None, "smart": smart, "start": "E"}
+
+
+def _alias_text(rng, sym):
+    return {"WORD": rng.choice(WORDS), "NUMBER": str(rng.randrange(30)),
+            "KV": rng.choice(WORDS + [str(rng.randrange(30))])}.get(sym, sym)
+
+
+def f4_cases(rng, tier):
+    quick = tier == "quick"
+    for kav in ALIAS_MAPS:
+        for br in ALIAS_MAP_BR:
+            if br[0] in kav or br[1] in kav:
+                continue
+            for delim in (",", ";"):
+                if delim in br:
+                    continue
+                for _ in range(1 if quick else 6):
+                    afd, smart = rng.choice([None, True, False]), rng.random() < 0.5
+                    if kav[0] == kav[1] and br[0] is None and afd is not False:
+                        afd = False        # "k is v," followed by nothing: keep the bracket-less word-word-word map LL-readable
+                    items = []
+                    for _ in range(8):
+                        n = rng.choice([0, 1, 2, 3, 4])
+                        pairs = [[_alias_text(rng, kav[0]), _alias_text(rng, kav[2])] for _ in range(n)]
+                        fin = n > 0 and rng.random() < 0.3
+                        text = ws(rng) + (br[0] or "") + ws(rng)
+                        for i, (k, v) in enumerate(pairs):
+                            if i:
+                                text += delim + ws(rng)
+                            text += k + sep(rng) + _alias_text(rng, kav[1]) + sep(rng) + v + ws(rng)
+                        if fin:
+                            text += delim + ws(rng)
+                        text += (br[1] or "") + ws(rng) + "#"
+                        if fin and afd is False:
+                            exp = ["err"]
+                        else:
+                            out = []
+                            for k, v in pairs:
+                                for ent in out:
+                                    if ent[0] == k:
+                                        ent[1] = v
+                                        break
+                                else:
+                                    out.append([k, v])
+                            exp = ["ok", {"te": "E", "ch": [{"map": out}, "#"]}]
+                        items.append({"text": text, "exp": exp, "size": [n, 1],
+                                      "tags": ["f4-map-key=val" if kav[0] == kav[2] else "f4-map",
+                                               "f4-map-key=assign=val" if kav[0] == kav[1] == kav[2] else "f4-map-symbols",
+                                               "f4-open=close" if br[0] and br[0] == br[1] else "f4-brackets"]})
+                    c = make_case(f4_map_spec(kav, br, delim, afd, smart), items,
+                                  {"kind": "f4-map", "kav": list(kav), "br": list(br), "delim": delim})
+                    if c is not None:
+                        yield c
+    for o, c_, d, afd in ALIAS_LISTS:
+        for smart in (True, False):
+            for _ in range(1 if quick else 6):
+                item = "NUMBER" if "WORD" in (o, c_) else "WORD"
+                spec = {"prods": [["E", "plain", [["L", "#"]]], ["L", "list", [o, item, d, c_, afd, None]]],
+                        "keep": None, "smart": smart, "start": "E"}
+                items = []
+                for _ in range(8):
+                    n = rng.choice([0, 1, 2, 3, 5])
+                    vals = [_alias_text(rng, item) for _ in range(n)]
+                    text = ws(rng) + _alias_text(rng, o) + (sep(rng) if o == "WORD" else ws(rng))
+                    for i, v in enumerate(vals):
+                        if i:
+                            text += (ws(rng) + d + ws(rng)) if d else sep(rng)
+                        text += v
+                    text += sep(rng) + _alias_text(rng, c_) + ws(rng) + "#"
+                    items.append({"text": text, "exp": ["ok", {"te": "E", "ch": [vals, "#"]}], "size": [n, 1],
+                                  "tags": ["f4-list-open=close" if o == c_ else "f4-list-delim=bracket" if d in (o, c_)
+                                           else "f4-list-word-bracket"]})
+                cs = make_case(spec, items, {"kind": "f4-list", "args": [o, item, d, c_, afd]})
+                if cs is not None:
+                    yield cs
+
+
 # ------------------------------------------------------------------ building cases
 def build_lines(case):
-    lines = [case["g"]]
+    lines = [case["g"], case["G"]]
     for it in case["items"]:
+        lines.append(it["tp"])
+        lines.append("tc")
         if it.get("cl"):
             lines.append(it["cl"])
             lines.append("cf")
     return lines
+
+
+def lexemes(text):
+    """what the tokenizer's regular expression finds, line by line (group name, text) -- before synonyms / skipping"""
+    import re
+    m = re.compile(TK, re.VERBOSE)
+    out = []
+    for line in text.split("\n"):
+        for mm in m.finditer(line.rstrip()):
+            out.append((mm.lastgroup, mm.group()))
+    return out
+
+
+def G_line(spec):
+    """the whole constructor call for the model: token groups, synonyms, the user's dictionary with its templates"""
+    import re
+    groups = list(re.compile(TK, re.VERBOSE).groupindex.keys())
+    syn = [x for kv in SYN.items() for x in kv]
+    ents = []
+    for sym, kind, data in spec["prods"]:
+        if kind == "plain":
+            parts = ["N" if p is None else ("X " + _names(p["x"]) if isinstance(p, dict) else _names(p)) for p in data]
+            ents.append(("P %s %s" % (enc_str(sym), " ".join(parts))).rstrip())
+        elif kind == "list":
+            ents.append("L " + list_args_line(data, sym))
+        elif kind == "map":
+            ents.append("M " + map_args_line(data, sym))
+        elif kind == "seq":
+            ents.append(("S %s %s" % (enc_str(sym), sym_args_text(data))).rstrip())
+    return "G %s %s keep %s groups %s syn %s T %s E %s" % (
+        "1" if spec.get("smart", True) else "0", enc_str(spec.get("start", "E")), _names(sorted(spec["keep"] or [])),
+        _names(groups), _names(syn), _names(all_terminals()), " ; ".join(ents))
+
+
+def tp_line(text):
+    lx = lexemes(text)
+    return ("tp " + " ".join(enc_str(g) + " " + enc_str(v) for g, v in lx)).rstrip()
 
 
 def make_case(spec, items, meta):
@@ -1063,17 +1341,20 @@ def make_case(spec, items, meta):
         p = parser_of(spec)
     except (ll.GrammarError, AssertionError) as e:
         if meta.get("expect_rejected"):
-            return None        # nullable item without delimiter: documented GrammarError
-        return {"lines": ["g rejected " + type(e).__name__], "spec": spec, "items": items, "g": "g rejected",
-                "meta": dict(meta, grammar_rejected=type(e).__name__)}
+            # nullable item without delimiter: documented GrammarError; the model's constructor must say the same
+            return {"lines": [G_line(spec)], "spec": spec, "items": [], "g": "g rejected", "G": G_line(spec),
+                    "meta": dict(meta, grammar_rejected_as_documented=type(e).__name__)}
+        return {"lines": ["g rejected " + type(e).__name__, G_line(spec)], "spec": spec, "items": items, "g": "g rejected",
+                "G": G_line(spec), "meta": dict(meta, grammar_rejected=type(e).__name__)}
     g = g_line(spec)
     for it in items:
+        it["tp"] = tp_line(it["text"])
         try:
             raw = p.parse(it["text"], do_cleanup=False)
             it["cl"] = "cl " + show_val(raw)
         except Exception:
             it["cl"] = None
-    case = {"spec": spec, "items": items, "g": g, "meta": meta}
+    case = {"spec": spec, "items": items, "g": g, "G": G_line(spec), "meta": meta}
     case["lines"] = build_lines(case)
     return case
 
@@ -1094,8 +1375,15 @@ def tpl_cases(rng, tier):
                 for opt in (None, True, False):
                     for afd in (None, True, False):
                         lines.append("mp " + map_args_line([o, "K", asg, "V", d, c, opt, afd], "M"))
-    for syms in ([], ["A"], ["A", "B", "C"], ["WORD", "WORD"]):
-        lines.append("sp " + " ".join(enc_str(x) for x in ["S"] + syms))
+    terms = ["WORD", "NUMBER", ",", "[", "]", ";"]
+    X = lambda *ex: {"x": list(ex)}
+    for syms in ([], ["A"], ["A", "B", "C"], ["WORD", "WORD"], [X("[", "]")], [X("[", "]"), "A", "B"],
+                 ["A", X("[", "]"), "B"], ["A", "B", X("[", "]")], [X(), "A"], [X("[", "]"), X(";")],
+                 ["A", X("nope"), "B"], [X(*terms), "A"], ["WORD", X("WORD")]):
+        lines.append(sp_line("S", terms, syms))
+    for prods in ([], [None], [["A"], None], [X("[", "]")], [["A", "B"], X("[", "]"), ["C"]], [X("[", "]"), ["A"], None],
+                  [["A"], X(","), X(";")], [X("nope"), ["A"]], [None, ["A"], X(*terms)]):
+        lines.append(pr_line(terms, prods))
     for _ in range(40 if tier == "quick" else 400):
         nm = lambda: rng.choice(names)
         on = lambda: rng.choice([None, nm()])
@@ -1103,6 +1391,17 @@ def tpl_cases(rng, tier):
                                              rng.choice([None, True, False])], nm()))
         lines.append("mp " + map_args_line([on(), nm(), on(), nm(), on(), on(), rng.choice([None, True, False]),
                                             rng.choice([None, True, False])], nm()))
+        k = rng.randrange(0, 5)
+        syms = [rng.choice(["A", "B", "WORD", "L"]) for _ in range(k)]
+        for _ in range(rng.choice([0, 1, 1, 1, 2])):
+            syms.insert(rng.randrange(0, len(syms) + 1), X(*rng.sample(terms + ["nope"], rng.randrange(0, 4))))
+        tt = terms[:]
+        rng.shuffle(tt)
+        lines.append(sp_line("S", tt, syms))
+        prods = [rng.choice([None, ["A"], ["A", "B"], ["WORD"]]) for _ in range(k)]
+        for _ in range(rng.choice([0, 1, 1, 1, 2])):
+            prods.insert(rng.randrange(0, len(prods) + 1), X(*rng.sample(terms + ["nope"], rng.randrange(0, 4))))
+        lines.append(pr_line(tt, prods))
     for i in range(0, len(lines), 20):
         yield {"lines": lines[i:i + 20], "meta": {"kind": "templates"}}
     # sequences: un-flattened trees as the parse loop sees them
@@ -1149,6 +1448,7 @@ def gen_cases(rng, tier):
         if c is not None:
             yield c
     yield from f3_cases(rng, tier)
+    yield from f4_cases(rng, tier)
 
 
 def search_cases(rng, tier):
@@ -1246,27 +1546,37 @@ LEVEL_TEXT = (
     "conforms to the productions the templates generate has one of the derivation shapes (list_derivations, "
     "map_derivations); the table-driven walk returns exactly the item / key-value subtrees of that derivation in document "
     "order, each cleaned with for_container=True, leaves replaced by their value, with exactly the two documented "
-    "adjustments (list_items, map_items); dict(kv_pairs) keeps first-occurrence key order and the last value "
-    "(map_string_keys, dict_key_order, dict_last_value); sequences are flattened in order and cleaned element-wise without "
-    "loss (seq_items); empty brackets give [] / {}, absent optional containers keep None (empty_and_absent); a bare final "
-    "delimiter can be derived only when allowed and never changes the result (final_delim, final_delim_map); for the json-like "
-    "grammar the clean-up of any tree denoting nested data d is pyval(d) at every depth and every conforming tree of that "
-    "grammar denotes some d (nesting, nesting_every_derivation); squashable wrappers vanish "
-    "around items, kept ones stay (squash_around_items); the clean-up of a well-typed conforming tree never raises "
-    "Assertion/Index/AttributeError (no_exceptions); _make_squash_data characterised (squash_data); the constructors' options "
-    "are well-formed when user symbols contain no '__' and the item symbol is not a bracket/delimiter symbol "
-    "(wf_of_list_constructor, wf_of_map_constructor). Acceptance/rejection of texts (a final delimiter is *parsed* only when "
-    "allowed) and parse(render(d)).value == d rest on the oracle run against the real parser, not on a theorem: the LL parse "
-    "loop is C01's model, the raw tree enters this model as data.")
+    "adjustments (list_items, map_items; no hypothesis on key/assign/value symbols, they may coincide); dict(kv_pairs) keeps "
+    "first-occurrence key order and the last value (map_string_keys, dict_key_order, dict_last_value); sequences are "
+    "flattened in order and cleaned element-wise without loss (seq_items); every symbol given to ProdSequence / a production "
+    "list is honoured wherever AnyTokenExcept stands (any_token_except); empty brackets give [] / {}, absent optional "
+    "containers keep None (empty_and_absent); a bare final delimiter can be derived only when allowed and never changes the "
+    "result (final_delim, final_delim_map); for the json-like grammar the clean-up of any tree denoting nested data d is "
+    "pyval(d) at every depth and every conforming tree denotes some d (nesting, nesting_every_derivation); squashable wrappers "
+    "vanish around items, kept ones stay (squash_around_items); the clean-up of a well-typed conforming tree never raises "
+    "Assertion/Index/AttributeError (no_exceptions); _make_squash_data characterised (squash_data); constructor options are "
+    "well-formed when user symbols contain no '__' and the item symbol is not a bracket/delimiter symbol "
+    "(wf_of_list_constructor, wf_of_map_constructor). END TO END (end_to_end_json_partial): with constructor (LL model's "
+    "factorize / nullables / FIRST / FOLLOW / table + template expansion + StdCleanuper.make), parse loop (LL.run, roll-backs "
+    "included) and clean-up all inside the model, for the json grammar E -> VALUE -> WORD | LIST | MAP with default options and "
+    "BOTH smart_factorization values: for every written value (any depth, final delimiters) and any blank lexemes, the parser "
+    "accepts, the raw tree is the derivation tree and parse(text) has exactly the value pyval(data). For other grammars / "
+    "options acceptance of a text and parse(render(d)).value == d rest on the differential run of that same model pipeline "
+    "(tokens -> constructT -> LL.run -> toVal -> cleanup) against the real parser and on the oracle.")
 LEVEL_NOTE = (
     "Trusted: Lean kernel (axioms propext, Classical.choice, Quot.sound), translator for the generated symbol suffixes and "
-    "MapProds' allow_final_delimiter default, adapter/oracle in harness/c05.py, the real tokenizer + parse loop producing the raw "
-    "tree and the real factorised prods_map fed to the modelled _make_squash_data, sampled correspondence: model cleanup(raw "
-    "tree) == real parse(text) for every accepted ListProds option combination x both smart_factorization values x keep_symbols "
-    "variants, nested json-like data with objects / optional containers / sequences / bracket-less maps / nullable items and "
-    "values / token items / non-terminal delimiters / composite keys, random blanks, newlines and comments; generated "
-    "productions, signature tables, sequence flattening, squash data and the theorems' hypotheses (conforms, wellTyped) "
-    "are compared / evaluated on every case as diagnostics.")
+    "MapProds' allow_final_delimiter default, adapter/oracle in harness/c05.py, the regular-expression lexing (lexemes enter as "
+    "data; synonyms / skipping are modelled), iteration order of the terminal set for AnyTokenExcept (data, sorted), sampled "
+    "correspondence: (tc) model parse+clean-up of the lexemes == real parse(text), including ParsingError for texts the grammar "
+    "cannot read and GrammarError / AssertionError of the constructor; (cl) model clean-up of the real raw tree == real "
+    "parse(text); diagnostics: model raw tree == real raw tree (tp), generated productions and signature tables (lp/mp), "
+    "AnyTokenExcept expansion in sequences and production lists (sp/pr), sequence flattening (sq), squash data (g/G), the "
+    "theorems' hypotheses conforms/wellTyped on every real tree (cf). Generators: every accepted ListProds option combination x "
+    "both smart_factorization values x keep_symbols variants, nested json-like data with objects / optional containers / "
+    "sequences (AnyTokenExcept first/middle/last) / bracket-less maps / nullable items and values / pair lists, token items, "
+    "non-terminal delimiters, composite keys, list items with AnyTokenExcept at every position, coinciding symbols (key = value "
+    "= assign, open = close, delimiter = bracket, word brackets), random blanks, newlines and comments.")
 TECHNIQUE = ("Lean 4 theorems over an executable structural-recursive model of the templates and the cleanuper (derivation "
              "shapes as inductive predicates, case analysis over all option fields) + translator for generated names + "
-             "differential run of the compiled model against the real parser + render/parse/denote oracle")
+             "composition with the LL parser model (constructor + parse loop; a local 'predicted by ordered choice' lemma for "
+             "LL.run proved here) + differential run of the compiled model against the real parser + render/parse/denote oracle")
